@@ -148,6 +148,8 @@ pub fn c04_menu() -> Vec<Vec<OpSpec>> {
         vec![OpSpec::bucket("goc", &[], "n0"), OpSpec::put(&["n0"], "a", "v*8"), OpSpec::bucket("goc", &[], "n1"), OpSpec::put(&["n1"], "a", "v*8"), OpSpec::bucket("goc", &[], "n2"), OpSpec::put(&["n2"], "a", "v*8"), OpSpec::bucket("goc", &[], "n3"), OpSpec::put(&["n3"], "a", "v*8"), OpSpec::bucket("goc", &[], "n4"), OpSpec::put(&["n4"], "a", "v*8")],
         vec![OpSpec::bucket("delb", &[], "c")],
         vec![OpSpec::del(&["b"], "k1"), OpSpec::del(&["b"], "k2"), OpSpec::del(&["b"], "k3"), OpSpec::del(&["b"], "k4")],
+        // more than the 64 pages of the base file: the commit has to grow and map the file again
+        vec![OpSpec::put(&["b"], "big", "G*70000")],
     ]
 }
 
@@ -174,6 +176,11 @@ pub struct C04Case {
     /// index of the commit whose header write fails (EIO on the first write after the data sync: the
     /// commit reports the error, nothing of it is visible)
     pub header_fault: Option<usize>,
+    /// staged case (two readers, six commits): reader 1 begins after commit 2; reader 0 (begun on
+    /// the base state) looks again and ends after commit 3; the writer makes commits 4 to 6 only
+    /// after that; reader 1 looks again after the last commit.  The waits are blocking (no preemption is
+    /// spent on them); the preemption budget explores the rest.
+    pub readers_wait: bool,
     pub chain: Vec<usize>,
     /// chain of a second writer thread (empty: none); its bodies must commute with `chain`
     pub second: Vec<usize>,
@@ -260,8 +267,12 @@ pub fn c04_run(case: &C04Case, base: &Base, path: &str, prefix: &[u8], policy: R
         let fsync_fault = if wi == 0 { case.fsync_fault } else { None };
         let fsync_fault2 = if wi == 0 { case.fsync_fault2 } else { None };
         let header_fault = if wi == 0 { case.header_fault } else { None };
+        let staged = case.readers_wait && nwriters == 1;
         bodies.push(Box::new(move |_ctx: &Ctx| {
             for (ci, ops) in chain_ops.into_iter().enumerate() {
+                if staged && ci == 3 {
+                    _ctx.await_flag(100);
+                }
                 let tx = match db.tx(true) {
                     Ok(tx) => tx,
                     Err(e) => {
@@ -305,10 +316,15 @@ pub fn c04_run(case: &C04Case, base: &Base, path: &str, prefix: &[u8], policy: R
                         return;
                     }
                 }
-                commits_done.fetch_add(1, Ordering::SeqCst);
+                let done = commits_done.fetch_add(1, Ordering::SeqCst) + 1;
+                if wi == 0 {
+                    _ctx.set_flag(done as usize);
+                }
             }
         }));
     }
+    let total_commits = specs.len() as i64;
+    let readers_wait = case.readers_wait && nwriters == 1;
     for ri in 0..case.readers {
         let db = db.clone();
         let commits_done = commits_done.clone();
@@ -316,6 +332,9 @@ pub fn c04_run(case: &C04Case, base: &Base, path: &str, prefix: &[u8], policy: R
         let obs = obs.clone();
         let dumps = case.dumps;
         bodies.push(Box::new(move |ctx: &Ctx| {
+            if readers_wait && ri == 1 {
+                ctx.await_flag(2);
+            }
             let c0 = commits_done.load(Ordering::SeqCst) + 1000 * commits_done2.load(Ordering::SeqCst);
             let tx = match db.tx(false) {
                 Ok(tx) => tx,
@@ -327,12 +346,21 @@ pub fn c04_run(case: &C04Case, base: &Base, path: &str, prefix: &[u8], policy: R
             obs.lock().unwrap().readers[ri].0 = c0;
             for i in 0..dumps {
                 if i > 0 {
-                    ctx.yield_now("between-dumps");
+                    if readers_wait {
+                        ctx.await_flag(if ri == 0 { 3 } else { total_commits as usize });
+                    } else {
+                        ctx.yield_now("between-dumps");
+                    }
                 }
-                let d = dump_yielding(&tx, ctx);
+                // (waiting readers scan without yielding inside the scan: their cases spend the
+                // preemption budget on where readers begin and end)
+                let d = if readers_wait { real::dump_tx(&tx) } else { dump_yielding(&tx, ctx) };
                 obs.lock().unwrap().readers[ri].1.push(d);
             }
             drop(tx);
+            if readers_wait && ri == 0 {
+                ctx.set_flag(100);
+            }
         }));
     }
     let res = run_execution(prefix, bodies, policy, true);
@@ -408,50 +436,59 @@ pub fn c04_run(case: &C04Case, base: &Base, path: &str, prefix: &[u8], policy: R
 
 fn c04_cases(tier: Tier) -> Vec<(C04Case, usize)> {
     let mut v = vec![];
-    let nm = c04_menu().len();
+    let nm = c04_menu().len() - 1; // the growth body is used by its own cases only
     // every chain of two commits x one reader
     for a in 0..nm {
         for b in 0..nm {
-            v.push((C04Case { fsync_fault2: None, header_fault: None, second: vec![], fsync_fault: None, chain: vec![a, b], readers: 1, dumps: 2 }, if tier == Tier::Quick { 2 } else { 3 }));
+            v.push((C04Case { readers_wait: false, fsync_fault2: None, header_fault: None, second: vec![], fsync_fault: None, chain: vec![a, b], readers: 1, dumps: 2 }, if tier == Tier::Quick { 2 } else { 3 }));
         }
     }
     // chains of three commits against one reader at two preemptions: a reader that begins in the
     // middle of the first commit and stays open across the next two
     if tier == Tier::Quick {
         for chain in [vec![0, 3, 5], vec![5, 2, 3], vec![1, 0, 2], vec![2, 5, 3]] {
-            v.push((C04Case { fsync_fault2: None, header_fault: None, second: vec![], fsync_fault: None, chain, readers: 1, dumps: 2 }, 2));
+            v.push((C04Case { readers_wait: false, fsync_fault2: None, header_fault: None, second: vec![], fsync_fault: None, chain, readers: 1, dumps: 2 }, 2));
         }
     }
     // a commit whose final sync fails in the middle of the chain, with a reader around
     for (chain, at) in [(vec![0, 3, 5], 0usize), (vec![5, 2, 3], 1), (vec![1, 0, 2], 0)] {
-        v.push((C04Case { fsync_fault2: None, header_fault: None, second: vec![], fsync_fault: Some(at), chain, readers: 1, dumps: 2 }, 2));
+        v.push((C04Case { readers_wait: false, fsync_fault2: None, header_fault: None, second: vec![], fsync_fault: Some(at), chain, readers: 1, dumps: 2 }, 2));
     }
     // two writer threads (commuting chains) and a reader: a writer that begins while the other is
     // still inside its commit
     for (chain, second) in [(vec![0, 2], vec![3]), (vec![5, 1], vec![4]), (vec![3], vec![2, 5])] {
-        v.push((C04Case { fsync_fault2: None, header_fault: None, second, fsync_fault: None, chain, readers: 1, dumps: 2 }, 2));
+        v.push((C04Case { readers_wait: false, fsync_fault2: None, header_fault: None, second, fsync_fault: None, chain, readers: 1, dumps: 2 }, 2));
     }
     // two commits in a row whose final sync fails; a commit whose header write fails followed by
     // different commits
     for (chain, f1, f2) in [(vec![0, 3, 5, 2], 0usize, 1usize), (vec![5, 2, 3, 0], 1, 2)] {
-        v.push((C04Case { fsync_fault2: Some(f2), header_fault: None, second: vec![], fsync_fault: Some(f1), chain, readers: 1, dumps: 2 }, if tier == Tier::Quick { 1 } else { 2 }));
+        v.push((C04Case { readers_wait: false, fsync_fault2: Some(f2), header_fault: None, second: vec![], fsync_fault: Some(f1), chain, readers: 1, dumps: 2 }, if tier == Tier::Quick { 1 } else { 2 }));
     }
     for (chain, h) in [(vec![5, 0, 2, 3], 0usize), (vec![0, 3, 5, 2], 1), (vec![2, 5, 1, 3], 0)] {
-        v.push((C04Case { fsync_fault2: None, header_fault: Some(h), second: vec![], fsync_fault: None, chain, readers: 1, dumps: 2 }, if tier == Tier::Quick { 1 } else { 2 }));
+        v.push((C04Case { readers_wait: false, fsync_fault2: None, header_fault: Some(h), second: vec![], fsync_fault: None, chain, readers: 1, dumps: 2 }, if tier == Tier::Quick { 1 } else { 2 }));
+    }
+    // two readers on different snapshots, the older one ending first, across four commits; readers
+    // wait for the next commit between their dumps (a blocked thread is switched away from for free)
+    for chain in if tier == Tier::Quick { vec![vec![0, 1, 0, 1, 0, 1], vec![0, 3, 5, 2, 0, 1]] } else { vec![vec![0, 1, 0, 1, 0, 1], vec![0, 3, 5, 2, 0, 1], vec![5, 2, 3, 0, 1, 0], vec![2, 5, 1, 3, 0, 2]] } {
+        v.push((C04Case { readers_wait: true, fsync_fault2: None, header_fault: None, second: vec![], fsync_fault: None, chain, readers: 2, dumps: 2 }, if tier == Tier::Quick { 1 } else { 2 }));
+    }
+    // a commit that grows (and maps again) the file while a reader begins
+    for chain in [vec![6, 0], vec![0, 6, 2]] {
+        v.push((C04Case { readers_wait: false, fsync_fault2: None, header_fault: None, second: vec![], fsync_fault: None, chain, readers: 1, dumps: 2 }, 2));
     }
     // asymmetric chains of three, two readers
-    v.push((C04Case { fsync_fault2: None, header_fault: None, second: vec![], fsync_fault: None, chain: vec![0, 3, 5], readers: 2, dumps: 2 }, if tier == Tier::Quick { 1 } else { 2 }));
-    v.push((C04Case { fsync_fault2: None, header_fault: None, second: vec![], fsync_fault: None, chain: vec![5, 2, 3], readers: 2, dumps: 2 }, if tier == Tier::Quick { 1 } else { 2 }));
+    v.push((C04Case { readers_wait: false, fsync_fault2: None, header_fault: None, second: vec![], fsync_fault: None, chain: vec![0, 3, 5], readers: 2, dumps: 2 }, if tier == Tier::Quick { 1 } else { 2 }));
+    v.push((C04Case { readers_wait: false, fsync_fault2: None, header_fault: None, second: vec![], fsync_fault: None, chain: vec![5, 2, 3], readers: 2, dumps: 2 }, if tier == Tier::Quick { 1 } else { 2 }));
     if tier == Tier::Thorough {
         for a in 0..nm {
             for b in 0..nm {
                 for c in 0..nm {
-                    v.push((C04Case { fsync_fault2: None, header_fault: None, second: vec![], fsync_fault: None, chain: vec![a, b, c], readers: 1, dumps: 2 }, 2));
+                    v.push((C04Case { readers_wait: false, fsync_fault2: None, header_fault: None, second: vec![], fsync_fault: None, chain: vec![a, b, c], readers: 1, dumps: 2 }, 2));
                 }
             }
         }
-        v.push((C04Case { fsync_fault2: None, header_fault: None, second: vec![], fsync_fault: None, chain: vec![0, 3, 5, 2], readers: 1, dumps: 3 }, 3));
-        v.push((C04Case { fsync_fault2: None, header_fault: None, second: vec![], fsync_fault: None, chain: vec![3, 0, 2, 5], readers: 2, dumps: 2 }, 2));
+        v.push((C04Case { readers_wait: false, fsync_fault2: None, header_fault: None, second: vec![], fsync_fault: None, chain: vec![0, 3, 5, 2], readers: 1, dumps: 3 }, 3));
+        v.push((C04Case { readers_wait: false, fsync_fault2: None, header_fault: None, second: vec![], fsync_fault: None, chain: vec![3, 0, 2, 5], readers: 2, dumps: 2 }, 2));
     }
     v
 }
@@ -680,17 +717,17 @@ pub fn run(check: &mut Check, prop: &str, cases: Vec<CaseInfo>, policies: &[&str
 fn c03_thread_cases(tier: Tier) -> Vec<(C04Case, usize)> {
     let mut v = vec![];
     for chain in [vec![0, 3, 5], vec![5, 2, 3], vec![1, 0, 2], vec![2, 5, 3], vec![3, 1, 4], vec![4, 4, 0]] {
-        v.push((C04Case { fsync_fault2: None, header_fault: None, second: vec![], fsync_fault: None, chain, readers: 1, dumps: 2 }, 2));
+        v.push((C04Case { readers_wait: false, fsync_fault2: None, header_fault: None, second: vec![], fsync_fault: None, chain, readers: 1, dumps: 2 }, 2));
     }
-    v.push((C04Case { fsync_fault2: None, header_fault: None, second: vec![], fsync_fault: None, chain: vec![0, 3, 5], readers: 2, dumps: 2 }, 1));
+    v.push((C04Case { readers_wait: false, fsync_fault2: None, header_fault: None, second: vec![], fsync_fault: None, chain: vec![0, 3, 5], readers: 2, dumps: 2 }, 1));
     if tier == Tier::Thorough {
-        let nm = c04_menu().len();
+        let nm = c04_menu().len() - 1; // the growth body is used by its own cases only
         for a in 0..nm {
             for b in 0..nm {
-                v.push((C04Case { fsync_fault2: None, header_fault: None, second: vec![], fsync_fault: None, chain: vec![a, b, (a + b + 1) % nm], readers: 1, dumps: 3 }, 2));
+                v.push((C04Case { readers_wait: false, fsync_fault2: None, header_fault: None, second: vec![], fsync_fault: None, chain: vec![a, b, (a + b + 1) % nm], readers: 1, dumps: 3 }, 2));
             }
         }
-        v.push((C04Case { fsync_fault2: None, header_fault: None, second: vec![], fsync_fault: None, chain: vec![5, 2, 3, 0], readers: 2, dumps: 2 }, 2));
+        v.push((C04Case { readers_wait: false, fsync_fault2: None, header_fault: None, second: vec![], fsync_fault: None, chain: vec![5, 2, 3, 0], readers: 2, dumps: 2 }, 2));
     }
     v
 }
@@ -707,7 +744,7 @@ fn case_infos(cases: Vec<(C04Case, usize)>) -> Vec<CaseInfo> {
     let menu = c04_menu();
     cases
         .iter()
-        .map(|(c, bound)| CaseInfo { label: format!("chain{:?}{}{}-r{}-c{}", c.chain, if c.second.is_empty() { String::new() } else { format!("+w2{:?}", c.second) }, format!("{}{}{}", c.fsync_fault.map(|i| format!("-fsyncfail@{}", i)).unwrap_or_default(), c.fsync_fault2.map(|i| format!("+{}", i)).unwrap_or_default(), c.header_fault.map(|i| format!("-headerwritefail@{}", i)).unwrap_or_default()), c.readers, bound), describe: json!({"writer_chain": c.chain.iter().map(|&m| menu[m].iter().map(|o| o.to_json()).collect::<Vec<_>>()).collect::<Vec<_>>(), "second_writer_chain": c.second, "readers": c.readers, "dumps_per_reader": c.dumps, "preemption_bound": bound}) })
+        .map(|(c, bound)| CaseInfo { label: format!("chain{:?}{}{}-r{}-c{}", c.chain, if c.second.is_empty() { String::new() } else { format!("+w2{:?}", c.second) }, format!("{}{}{}", c.fsync_fault.map(|i| format!("-fsyncfail@{}", i)).unwrap_or_default(), c.fsync_fault2.map(|i| format!("+{}", i)).unwrap_or_default(), c.header_fault.map(|i| format!("-headerwritefail@{}", i)).unwrap_or_default()) + if c.readers_wait { "-staged-two-ages" } else { "" }, c.readers, bound), describe: json!({"writer_chain": c.chain.iter().map(|&m| menu[m].iter().map(|o| o.to_json()).collect::<Vec<_>>()).collect::<Vec<_>>(), "second_writer_chain": c.second, "readers": c.readers, "dumps_per_reader": c.dumps, "preemption_bound": bound}) })
         .collect()
 }
 
